@@ -174,6 +174,7 @@ class StubPlanner(Engine, OneshotPlannerMixin):
             call["result"] = "UNSUPPORTED:" + str(ex)
             sc.clock.now += sc.latency
             return PlanGenerationResult(ST.UNSUPPORTED_PROBLEM, None, self.name)
+        call["desc"] = desc
         res = search(desc)
         cost = sc.latency + sc.rate * res["expanded"]
         if timeout is not None and cost > timeout:
@@ -219,6 +220,28 @@ class MetaSim(SimEngine):
         "the stub in the fault-free profile; in the fault profile the stub stays truthful but individual calls fail",
         "optimality of interpreted-functions plans is not required",
     )
+
+    @staticmethod
+    def why_lost(calls, plan):
+        """Refinement of the class of a wrong UNSOLVABLE_PROVEN: replays the solving plan of the original problem on
+        the problem the stub was last asked about.  If the first step that fails there fails on a type bound while
+        some `_<fluent>_is_unknown` flag is set, the abstraction kept the STALE value of a fluent it declares unknown
+        (known finding C31-unknown-fluent-keeps-stale-value)."""
+        last = next((c for c in reversed(calls) if c.get("result") == "unsolvable" and c.get("desc")), None)
+        if last is None or plan is None:
+            return ""
+        try:
+            rs = RefSem(last["desc"])
+            st = rs.initial_state()
+            for an, ps in plan:
+                ok, new, why = rs.successor(st, an, tuple(ps))
+                if not ok:
+                    unknown = any(k[0].startswith("_") and k[0].endswith("_is_unknown") and v is True for k, v in st.items())
+                    return "/stale-value-of-unknown-fluent-out-of-bounds" if why == "bound" and unknown else ""
+                st = new
+        except Exception:
+            return ""
+        return ""
 
     def profiles(self, tier):
         return ["if-clean", "os-clean", "if-faults", "os-faults", "if-timeout", "os-timeout"]
@@ -510,7 +533,7 @@ class MetaSim(SimEngine):
             if status == ST.UNSOLVABLE_PROVEN:
                 ctx.check("C31.unsolvable-proven-is-true", not solvable,
                           f"{ename} reports UNSOLVABLE_PROVEN but the plan {truth['plan']} solves the problem "
-                          f"(peer calls: {outcomes})", cls="false-unsolvable")
+                          f"(peer calls: {outcomes})", cls="false-unsolvable" + self.why_lost(calls, truth["plan"]))
             if clean:
                 ctx.check("C31.complete", (status in POSITIVE) == solvable,
                           f"{ename} with a fault-free complete planner and no timeout reports {status.name}; exhaustive "
